@@ -18,7 +18,7 @@ ID = 'C13'
 LEVEL = 'exploration'
 RUNS = {'quick': 16000, 'thorough': 300000}
 CHUNK = 40
-PROBES = ['crossing_classes_on_one_thread', 'process_named_like_a_number', 'empty_thread_map', 'process_of_thread_announced_in_stream', 'dump_cut_at_both_ends', 'class_filter_bsd', 'class_filter_non_bsd', 'bsd_subclass_filter', 'tid_filter', 'process_filter_name', 'process_filter_pid',
+PROBES = ['request_without_code_table_after_custom_one', 'crossing_classes_on_one_thread', 'process_named_like_a_number', 'empty_thread_map', 'process_of_thread_announced_in_stream', 'dump_cut_at_both_ends', 'class_filter_bsd', 'class_filter_non_bsd', 'bsd_subclass_filter', 'tid_filter', 'process_filter_name', 'process_filter_pid',
           'helper_trace_class_hidden', 'helper_fs_class_hidden', 'helper_class_requested', 'repeat_request', 'callstacks_repeat',
           'kevents_after_traces', 'tuple_filter', 'images_announced_after_sample', 'combined_filters']
 RULE = ('one run = one long-lived PyKdebugParser and a history of 2..6 judged requests (traces, formatted_traces, callstacks, '
@@ -39,7 +39,7 @@ def _gen_filters(rng, dump):
     tids = [th['tid'] for th in dump['threads']]
     r = rng.random()
     if r < 0.3:
-        f['cls'] = rng.pick([[4], [4], [1], [4, 1], [0x1f], [0x25], [4, 3], [7], [4, 7], [3], [1, 0x1f, 0x25], [0x35]])
+        f['cls'] = rng.pick([[4], [4], [1], [4, 1], [0x1f], [0x25], [4, 3], [7], [4, 7], [3], [1, 0x1f, 0x25], [0x35], [0x040c], [4, 0x040c]])
     elif r < 0.45:
         f['sub'] = rng.pick([[0x040c], [0x040c, 0x040e], [0x040e]])
     elif r < 0.55:
@@ -179,7 +179,8 @@ def generate(rng, index, tier):
         elif r < 0.3:
             hist.append({'op': 'mutate', 'how': rng.pick(['append', 'remove']), 'value': rng.pick([4, 1, 0x1f, 7, 3])})
         elif r < 0.7:
-            hist.append({'op': 'request', 'dump': di, 'what': rng.pick(['traces', 'traces', 'formatted_traces']), 'repeat': rng.chance(0.5)})
+            hist.append({'op': 'request', 'dump': di, 'what': rng.pick(['traces', 'traces', 'formatted_traces']), 'repeat': rng.chance(0.5),
+                         'codes': rng.pick(['arg', 'arg', 'arg', 'none', 'other'])})
         elif r < 0.85:
             hist.append({'op': 'request', 'dump': di, 'what': 'callstacks', 'repeat': rng.chance(0.7)})
         else:
@@ -286,21 +287,23 @@ def execute(scn):
         filter_sensitive.append(sens)
     refs = {}
 
-    def ref_traces(di):
+    def ref_traces(di, tref=None):
         """Unfiltered reference run on a fresh parser, with the tool's own process attribution snapshotted per trace."""
-        if di not in refs:
+        tref = tables[di] if tref is None else tref
+        key = (di, id(tref) if tref is not tables[di] else 0, 'b' if tref == tool.codes() and tref is not tables[di] else '')
+        if key not in refs:
             rp = tool.pk_mod.PyKdebugParser()
             out = []
             exc = None
             try:
-                for t in rp.traces(SimReader(files[di]), tables[di]):
+                for t in rp.traces(SimReader(files[di]), tref):
                     tid = _first(t).tid
                     pid = rp.threads_pids.get(tid, -1)
                     out.append((t, str(t), (str(pid), rp.pids_names.get(pid, ''))))
             except Exception as e:
                 exc = e
-            refs[di] = (out, exc)
-        return refs[di]
+            refs[key] = (out, exc)
+        return refs[key]
     if scn.get('earlier_other'):
         for di_, d_ in enumerate(scn['dumps']):
             common.pollute_other_objects(tables[di_], worlds.dump_bytes(d_)[1], files[di_])
@@ -312,6 +315,28 @@ def execute(scn):
     hist = []
     shapes = set()
     nontrivial = False
+    custom_seen = [False]
+    other_tables = {}
+
+    def codes_for(h, di):
+        """(table argument to pass, table the reference run uses): explicit, omitted (= the bundled one), or another table
+        in which one decodable name lives under a different id (so that a table remembered from an earlier request shows)."""
+        mode = h.get('codes', 'arg')
+        if tables[di] != tool.codes():
+            mode = 'arg'
+        if mode == 'none':
+            if custom_seen[0]:
+                bump('probe:request_without_code_table_after_custom_one')
+            return None, tool.codes()
+        if mode == 'other':
+            if di not in other_tables:
+                t2 = dict(tables[di])
+                t2.pop(worlds.catalog()['ids']['BSC_getpid'], None)
+                t2[0x2f00beec] = 'BSC_getpid'
+                other_tables[di] = t2
+            custom_seen[0] = True
+            return other_tables[di], other_tables[di]
+        return tables[di], tables[di]
     for h in scn['history']:
         if h['op'] == 'mutate':
             # the caller edits its own class list in place between requests
@@ -339,7 +364,8 @@ def execute(scn):
                       copy.deepcopy(p.filter_subclass))
         cls, sub = cur.get('cls') or [], cur.get('sub') or []
         if what in ('traces', 'formatted_traces'):
-            ref, rexc = ref_traces(di)
+            targ, tref = codes_for(h, di)
+            ref, rexc = ref_traces(di, tref)
             if rexc is not None:
                 hist.append([what, 'ref-raised', type(rexc).__name__])
                 continue
@@ -350,11 +376,11 @@ def execute(scn):
                 hist.append([what, 'premise-skipped'])
                 continue
             if what == 'traces':
-                items, exc = common.drain(lambda: p.traces(SimReader(files[di]), tables[di]))
+                items, exc = common.drain(lambda: p.traces(SimReader(files[di]), targ))
                 got = [str(t) for t in items] if exc is None else None
             else:
                 p.color = False
-                items, exc = common.drain(lambda: p.formatted_traces(SimReader(files[di]), tables[di]))
+                items, exc = common.drain(lambda: p.formatted_traces(SimReader(files[di]), targ))
                 got = items
             if cur.get('as_tuple'):
                 bump('probe:tuple_filter')
@@ -418,11 +444,11 @@ def execute(scn):
                 bump('fault:repeat')
                 nontrivial = True
                 if what == 'traces':
-                    items2, exc2 = common.drain(lambda: p.traces(SimReader(files[di]), tables[di]))
+                    items2, exc2 = common.drain(lambda: p.traces(SimReader(files[di]), targ))
                     got2 = [str(t) for t in items2] if exc2 is None else None
                     first = [str(t) for t in items]
                 else:
-                    items2, exc2 = common.drain(lambda: p.formatted_traces(SimReader(files[di]), tables[di]))
+                    items2, exc2 = common.drain(lambda: p.formatted_traces(SimReader(files[di]), targ))
                     got2 = items2
                     first = items
                 if exc2 is not None or got2 != first:
